@@ -59,6 +59,8 @@ impl ConnectorMap {
             r.is_some() ==> r.unwrap() == old(self)@[k@],
     { unimplemented!() }
     #[verifier::external_body]
+    pub fn is_empty(&self) -> (r: bool) ensures r == (self@.dom().len() == 0 && self@.dom().finite()) || (!r && !(self@.dom() =~= Set::<Seq<char>>::empty())) { unimplemented!() }
+    #[verifier::external_body]
     pub fn contains_key(&self, k: &String) -> (r: bool) ensures r == self@.dom().contains(k@) { unimplemented!() }
     #[verifier::external_body]
     pub fn get(&self, k: &String) -> (r: Option<&ArcConnector>)
